@@ -38,10 +38,27 @@ fn main() {
         }
     }
     let args = Args { cmd, kv };
-    // panics of the code under test are data: keep the default hook quiet
-    std::panic::set_hook(Box::new(|_| {}));
+    // panics of the code under test are data: keep the default hook quiet, but remember where the panic was raised so
+    // that a panic of the driver's own code is never mistaken for one of the code under test
+    std::panic::set_hook(Box::new(|info| {
+        let loc = info.location().map(|l| format!("{}:{}", l.file(), l.line())).unwrap_or_default();
+        ev::LAST_PANIC.with(|c| *c.borrow_mut() = loc);
+    }));
     let out = ev::Out::new(args.get("out"));
-    let rc = drivers::run(&args, &out);
+    let rc = match std::panic::catch_unwind(std::panic::AssertUnwindSafe(|| drivers::run(&args, &out))) {
+        Ok(rc) => rc,
+        Err(_) => {
+            let loc = ev::last_panic();
+            out.flush();
+            if ev::is_driver_location(&loc) {
+                eprintln!("driver bug: panic in the driver's own code at {loc}");
+                std::process::exit(2);
+            }
+            // a panic of the code under test outside any recorded call: the process "dies" (the runner turns this into an abort event)
+            eprintln!("panic escaped from the code under test at {loc}");
+            std::process::exit(101);
+        }
+    };
     out.flush();
     std::process::exit(rc);
 }
